@@ -151,15 +151,20 @@ def rejectIf (c : Bool) (msg : String) : R Unit := if c then .stop (.err msg) el
 /-! ## quirks (as found / repaired) -/
 
 structure Q where
-  parser : CmdNum.Quirks := {}     -- the console expression parser (numeric tokens `unwrapped()`)
+  parser : CmdNum.Quirks := {}     -- the console expression parser; as it is: `try_map` conversions (no panic)
   overflowChecks : Bool := true    -- dev/test profile: `+` on `usize` panics on overflow
   checkedArith : Bool := false     -- repair: `checked_add` and an error response
-  allocGuard : Bool := false       -- repair: a requested size the address space cannot hold is refused
+  allocGuard : Bool := true        -- `try_reserve_exact` in `read_memory_by_pid`: a size that cannot be reserved is an error (939acb3)
   killGuard : Bool := false        -- repair: `terminateThreads` refuses thread id 0
   envelopeGuard : Bool := false    -- repair: a malformed envelope is skipped instead of ending the session
   deriving Repr
 
-def asFound : Q := {}
+/-- the code as it is -/
+def current : Q := {}
+/-- the code as it was found (before the repairs of the numeric tokens 49f358c b81e8d8 67375f8 0af67fe and of the
+read-buffer reservation 939acb3): kept to express the regressions -/
+def asFound : Q := { parser := CmdNum.asFound, allocGuard := false }
+/-- every repair in place, also those of the defects that are still open -/
 def repaired : Q :=
   { parser := CmdNum.repaired, checkedArith := true, allocGuard := true, killGuard := true, envelopeGuard := true }
 
@@ -414,10 +419,12 @@ def isizeMax : Nat := 2 ^ 63 - 1
 64 KiB and this bound are not generated) -/
 def allocMax : Nat := 2 ^ 47
 
-/-- `Vec::with_capacity(n)` in `read_memory_by_pid` (debugger/mod.rs:1316) -/
+/-- the read buffer of `read_memory_by_pid` (debugger/mod.rs): `try_reserve_exact(n)` — a size that cannot be
+reserved is an `ENOMEM` error of the debugger call (its answer is an error response, not modelled here);
+as found `Vec::with_capacity(n)`: "capacity overflow" above `isize::MAX`, otherwise the process aborts -/
 def alloc (q : Q) (n : Nat) : R Unit :=
   if n < allocMax then .val ()
-  else if q.allocGuard then .stop (.err "requested size exceeds the address space")
+  else if q.allocGuard then .val ()
   else if n > isizeMax then .stop (.panic .capacity)
   else .stop .abort
 
